@@ -393,6 +393,50 @@ def add_trial_check(rep, r, N):
       if ok is not None and ok != inside:
         conc = True
         rep.violation('Study.add_trial %s a trial that is %s the search space' % ('accepted' if ok else 'refused', 'inside' if inside else 'outside'), {'parameters': repr(params)})
+  # the same study name with another search space: after deletion and re-creation, on another server, with another client
+  # object - membership must be decided against the space the study has now
+  def mk_space(kind):
+    p = vz.ProblemStatement()
+    if kind == 'wide':
+      p.search_space.root.add_float_param('x', 0.0, 100.0)
+    elif kind == 'narrow':
+      p.search_space.root.add_float_param('x', 0.0, 1.0)
+    else:
+      p.search_space.root.add_float_param('x', 2.0, 3.0)
+      p.search_space.root.add_int_param('i', 1, 4)
+    p.metric_information.append(vz.MetricInformation(name='m1', goal=vz.ObjectiveMetricGoal.MAXIMIZE))
+    return p
+  from vizier.service import pyvizier as svz
+  probes = [{'x': 0.5}, {'x': 50.0}, {'x': 2.5, 'i': 1}, {'x': 2.5}]
+  inside_of = {'wide': [True, True, False, True], 'narrow': [True, False, False, False], 'mixed': [False, False, True, False]}
+  for rnd in range(3):
+    kinds = r.sample(['wide', 'narrow', 'mixed'], 3)
+    serv2 = vizier_service.VizierServicer(database_url=None)
+    for step, kind in enumerate(kinds):
+      if step == 2 and r.random() < 0.5:
+        serv2 = vizier_service.VizierServicer(database_url=None)     # another server, same study name
+      sc2 = svz.StudyConfig.from_problem(mk_space(kind))
+      sc2.algorithm = 'RANDOM_SEARCH'
+      st2 = serv2.CreateStudy(vs.CreateStudyRequest(parent='owners/o7', study=study_pb2.Study(display_name='same_name', study_spec=sc2.to_proto())))
+      study2 = clients.Study(vizier_client.VizierClient(st2.name, 'w0', serv2))
+      for params, inside in zip(probes, inside_of[kind]):
+        try:
+          study2.add_trial(vz.Trial(parameters=params))
+          ok = True
+        except ValueError:
+          ok = False
+        except Exception as e:  # pylint: disable=broad-except
+          ok = None
+        rep.case({'recreated_study_space': kind, 'add_trial': repr(params), 'accepted': ok}, True)
+        if ok is not None and ok != inside:
+          conc = True
+          rep.violation('Study.add_trial %s a trial that is %s the search space of a study re-created under the same name'
+                        % ('accepted' if ok else 'refused', 'inside' if inside else 'outside'),
+                        {'spaces_in_order': kinds[:step + 1], 'current_space': kind, 'parameters': repr(params)})
+      try:
+        study2.delete()
+      except Exception:  # pylint: disable=broad-except
+        pass
   return None, conc
 
 
